@@ -15,7 +15,7 @@ _inv ==
     ~(
         TLCGet("level") = Len(_TETrace)
         /\
-        hist = (<<<<"construct", 1, 0, "A">>, <<"copy", 2, 1, "">>, <<"mutate", 1, 0, "C">>>>)
+        hist = (<<<<"construct", 1, 0, "A">>, <<"construct", 2, 0, "A">>, <<"assign", 2, 1, "">>, <<"mutate", 1, 0, "C">>>>)
         /\
         abs = (<<<<21, 22>>, <<1, 2>>>>)
         /\
@@ -25,9 +25,9 @@ _inv ==
         /\
         obj = (<<1, 1>>)
         /\
-        nalloc = (1)
+        nalloc = (2)
         /\
-        store = (<<<<21, 22>>>>)
+        store = (<<<<21, 22>>, <<1, 2>>>>)
         /\
         qok = (TRUE)
     )
@@ -141,8 +141,9 @@ trace ==
     <<
     ([hist |-> <<>>,abs |-> <<>>,shape |-> 0,kind |-> "A",obj |-> <<>>,nalloc |-> 0,store |-> <<>>,qok |-> TRUE]),
     ([hist |-> <<<<"construct", 1, 0, "A">>>>,abs |-> <<<<1, 2>>>>,shape |-> 0,kind |-> "A",obj |-> <<1>>,nalloc |-> 1,store |-> <<<<1, 2>>>>,qok |-> TRUE]),
-    ([hist |-> <<<<"construct", 1, 0, "A">>, <<"copy", 2, 1, "">>>>,abs |-> <<<<1, 2>>, <<1, 2>>>>,shape |-> 0,kind |-> "A",obj |-> <<1, 1>>,nalloc |-> 1,store |-> <<<<1, 2>>>>,qok |-> TRUE]),
-    ([hist |-> <<<<"construct", 1, 0, "A">>, <<"copy", 2, 1, "">>, <<"mutate", 1, 0, "C">>>>,abs |-> <<<<21, 22>>, <<1, 2>>>>,shape |-> 0,kind |-> "A",obj |-> <<1, 1>>,nalloc |-> 1,store |-> <<<<21, 22>>>>,qok |-> TRUE])
+    ([hist |-> <<<<"construct", 1, 0, "A">>, <<"construct", 2, 0, "A">>>>,abs |-> <<<<1, 2>>, <<1, 2>>>>,shape |-> 0,kind |-> "A",obj |-> <<1, 2>>,nalloc |-> 2,store |-> <<<<1, 2>>, <<1, 2>>>>,qok |-> TRUE]),
+    ([hist |-> <<<<"construct", 1, 0, "A">>, <<"construct", 2, 0, "A">>, <<"assign", 2, 1, "">>>>,abs |-> <<<<1, 2>>, <<1, 2>>>>,shape |-> 0,kind |-> "A",obj |-> <<1, 1>>,nalloc |-> 2,store |-> <<<<1, 2>>, <<1, 2>>>>,qok |-> TRUE]),
+    ([hist |-> <<<<"construct", 1, 0, "A">>, <<"construct", 2, 0, "A">>, <<"assign", 2, 1, "">>, <<"mutate", 1, 0, "C">>>>,abs |-> <<<<21, 22>>, <<1, 2>>>>,shape |-> 0,kind |-> "A",obj |-> <<1, 1>>,nalloc |-> 2,store |-> <<<<21, 22>>, <<1, 2>>>>,qok |-> TRUE])
     >>
 ----
 
@@ -153,7 +154,7 @@ trace ==
 CONSTANTS
     MaxDepth = 4
     Kinds = { "L" , "V" , "W" , "S" , "A" }
-    Bug = "any_share"
+    Bug = "any_share_assign"
     Emit = FALSE
 
 INVARIANT
@@ -175,4 +176,4 @@ CONSTANT
 ALIAS
     _expression
 =============================================================================
-\* Generated on Sat Oct 03 20:57:20 UTC 2026
+\* Generated on Sat Oct 03 20:57:41 UTC 2026
